@@ -36,6 +36,13 @@ def sweeps(tier, seed):
         d2["connections"] = [{**c, **{k: "r_0" for k in ("src", "dst") if c[k] == "router"}} for c in d["connections"]]
         out.append((d2, dict(t, topo="names")))
     out += families.address_suite(tier, seed)
+    # the package branch without an address table (use_id_table: false; documented for XY)
+    for algo in ("XY", "SRC", "ID"):
+        d, t = families.mesh(rng, 2, 3, algo, False, sides=("W",), force_dir=True)
+        d["routing"]["use_id_table"] = False
+        if algo == "ID":
+            d["routing"]["addr_offset_bits"] = 16
+        out.append((d, dict(t, topo="no-table")))
     return [(d, t) for d, t in out if d is not None]
 
 
